@@ -1,6 +1,7 @@
 package main
 
 import (
+	"strconv"
 	"fmt"
 	"math/rand"
 	"strings"
@@ -288,7 +289,7 @@ func c13RandText(r *rand.Rand, n int) []rune {
 func toks(src string) Req { return Req{Op: "tokens", Src: Runes(src)} }
 
 func checkC13(c *Ctx) {
-	c.rule = "forward: random texts (length <= 200, biased to the ten quote characters, backtick, CR, LF, TAB, letters of the escape names, +, hex digits, NUL, CJK, astral) written as literals of the five quote spellings by an encoder that picks, per character, any rule-conformant spelling (raw, `CR` `LF` `CRLF` `TAB` `SP` `BK`, `U+hex`, backtick-wrapped unpaired quote, raw balanced pairs); zh.NextToken must return one token of the right type whose literal is the text, then EOF; for “ ”, 「 」 and 《 》 (the three documented ways to write a text value) also 输出‹literal› end to end; literals in source files longer than one read block, their characters (U+FEFF, multi-byte) sliding across the 4096 / 8192 byte marks, with and without a BOM; balanced pairs of the literal's own quotes nested 1 … 100000 deep (plain, flat, alternating with another family, followed by more text), as a token and through 输出; programs that end inside an unclosed literal (five opening quotes x five bodies x eleven positions: after each kind of comment, after a statement, in a declaration, a block, an argument list) must be syntax errors. reverse: all strings up to length 3 (quick) / 4 (thorough) plus random longer ones over a 28-symbol critical alphabet placed between the outer quotes of three families, against a three-valued reference decoder (value / unterminated = syntax error / unspecified where four readings of 'other backtick text is kept literally' differ or a U+ escape is not a scalar value). distinct_nontrivial = distinct (direction, family, escape kinds used / reference outcome class + content)"
+	c.rule = "forward: random texts (length <= 200, biased to the ten quote characters, backtick, CR, LF, TAB, letters of the escape names, +, hex digits, NUL, CJK, astral) written as literals of the five quote spellings by an encoder that picks, per character, any rule-conformant spelling (raw, `CR` `LF` `CRLF` `TAB` `SP` `BK`, `U+hex`, backtick-wrapped unpaired quote, raw balanced pairs); zh.NextToken must return one token of the right type whose literal is the text, then EOF; for “ ”, 「 」 and 《 》 (the three documented ways to write a text value) also 输出‹literal› end to end; literals in source files longer than one read block, their characters (U+FEFF, multi-byte) sliding across the 4096 / 8192 byte marks, with and without a BOM; balanced pairs of the literal's own quotes nested 1 … 100000 deep (plain, flat, alternating with another family, followed by more text), as a token and through 输出; every printable ASCII character after each escape-name prefix inside a backtick pair (an escape only when it is exactly one); programs that end inside an unclosed literal (five opening quotes x five bodies x eleven positions: after each kind of comment, after a statement, in a declaration, a block, an argument list) must be syntax errors. reverse: all strings up to length 3 (quick) / 4 (thorough) plus random longer ones over a 28-symbol critical alphabet placed between the outer quotes of three families, against a three-valued reference decoder (value / unterminated = syntax error / unspecified where four readings of 'other backtick text is kept literally' differ or a U+ escape is not a scalar value). distinct_nontrivial = distinct (direction, family, escape kinds used / reference outcome class + content)"
 	c.assumptions = []string{"token type codes 2/6/7 for the three literal families and 0 for EOF", "cases where the documented rules admit more than one reading are skipped and counted"}
 	rng := c.Rand("c13")
 
@@ -462,6 +463,64 @@ func checkC13(c *Ctx) {
 		})
 	}
 
+	// every printable ASCII character inside a backtick pair after each escape-name prefix: the
+	// text is an escape only when it is exactly one (a name, or U+ and 1..8 hex digits of a valid
+	// code point); anything else is kept literally, backticks included. (The short strings of the
+	// reverse direction only reach the 28 critical characters; this sweep reaches the others, e.g.
+	// the seven characters between '9' and 'A'.)
+	{
+		type ac struct {
+			body string
+			want string
+		}
+		acs := []ac{}
+		isHex := func(ch byte) bool { return (ch >= '0' && ch <= '9') || (ch >= 'A' && ch <= 'F') }
+		for _, prefix := range []string{"U+", "U+4", "U+4E2", "U+0000004", "C", "CR", "CRL", "T", "TA", "S", "B", "L", ""} {
+			for ch := byte(0x20); ch < 0x7F; ch++ {
+				if ch == '`' {
+					continue
+				}
+				for _, tail := range []string{"", "1", "F"} {
+					inner := prefix + string(ch) + tail
+					want := "`" + inner + "`"
+					if v, ok := escNames[inner]; ok {
+						want = string(v)
+					} else if strings.HasPrefix(inner, "U+") && len(inner) > 2 && len(inner) <= 10 {
+						allHex := true
+						for k := 2; k < len(inner); k++ {
+							allHex = allHex && isHex(inner[k])
+						}
+						if allHex {
+							n, _ := strconv.ParseUint(inner[2:], 16, 64)
+							if n > 0x10FFFF || (n >= 0xD800 && n <= 0xDFFF) {
+								continue // not a scalar value: unspecified (U8)
+							}
+							want = string(rune(n))
+						}
+					}
+					acs = append(acs, ac{"x`" + inner + "`y", "x" + want + "y"})
+				}
+			}
+		}
+		areqs := make([]Req, len(acs))
+		for i, a := range acs {
+			areqs[i] = toks("“" + a.body + "”")
+		}
+		c.runBatches(areqs, 500, func(i int, req *Req, resp *Resp) {
+			c.Eval()
+			a := acs[i]
+			c.Nontrivial("ascii-sweep|" + a.body[:min2(len(a.body), 6)] + "|" + resp.Kind)
+			c.Count("backtick_ascii_sweep", 1)
+			if resp.Kind != "ok" || len(resp.Toks) != 2 || RunesToString(resp.Toks[0].Lit) != a.want {
+				got := resp.Kind
+				if len(resp.Toks) > 0 {
+					got = fmt.Sprintf("%q", RunesToString(resp.Toks[0].Lit))
+				}
+				c.Violation("ascii-sweep:"+a.body, fmt.Sprintf("literal “%s” reads back as %s, expected %q", a.body, got, a.want), map[string]interface{}{"req": req})
+			}
+		})
+	}
+
 	// an unterminated literal is a syntax error wherever it stands in a program: as the first
 	// thing after each kind of comment, after a statement, inside a block, in an argument list
 	{
@@ -589,4 +648,12 @@ func checkC13(c *Ctx) {
 			}
 		}
 	})
+}
+
+
+func min2(a, b int) int {
+	if a < b {
+		return a
+	}
+	return b
 }
